@@ -235,14 +235,17 @@ impl FromIterator<Duration> for Curve {
 impl ArrivalBound for Curve {
     fn number_arrivals(&self, delta: Duration) -> usize {
         if delta.is_non_zero() {
-            // first, resolve long delta by super-additivity of arrival curves
-            let prefix = delta / self.largest_known_distance();
+            // first, resolve long delta by super-additivity of arrival curves:
+            // split delta into full multiples of the largest known distance and
+            // a non-empty remainder of at most that distance (looked up below)
+            let largest = self.largest_known_distance();
+            let prefix = (delta - Duration::epsilon()) / largest;
             let prefix_jobs = prefix as usize * self.jobs_in_largest_known_distance();
-            let tail = delta % self.largest_known_distance();
+            let tail = delta - largest * prefix;
             if tail > self.min_job_separation() {
                 prefix_jobs + self.lookup_arrivals(tail) as usize
             } else {
-                prefix_jobs + tail.is_non_zero() as usize
+                prefix_jobs + 1
             }
         } else {
             0
